@@ -91,7 +91,9 @@ def parseDesc (s : String) : Option Desc :=
 output key is outside the model (judged by rust-bitcoin in the harness) -/
 def descParams (t : Tables) : Params where
   H := ⟨Hash.sha256, Hash.hash160⟩
-  env := t.keyEnv
+  -- the sort key is computed by the MODEL from the pushed serialisation (mirror of
+  -- `bip67_sort_key` / the x-only variant), not taken from the `D key` sort column
+  env := { t.keyEnv with sortKey := fun k => sortKeyOfSer (t.keyEnv.ser k) }
   trOutputKey _ _ := []
 
 def isTr : Desc → Bool
